@@ -97,6 +97,20 @@ def build(inp) -> Case:
     lines.append(line("cm", pos=ql(pos), neg=ql(neg), ep=k, en=m, sc=sc, ec=ec, sorted=0, ts=ql(ts), icms=il(ce)))
     lines.append(line("cm", pos=ql(mpos), neg=ql(mneg), ep=0, en=0, sc=sc, ec=ec, sorted=0, ts=ql(ts), icms=il(cmt)))
     lines.append(line("rel", kind="same", a=il(ce), b=il(cmt)))
+    # the same thresholds in scalar form (Python float, NumPy scalar, 0-d array): counts of a scalar query are immutable
+    # NumPy integers, an in-place "+=" of the easy counts on them is a rebinding
+    if not inp.get("big"):
+        for j_, t_ in enumerate(ts[:4]):
+            for form, arg in (("float", float(t_)), ("np.float64", np.float64(t_)), ("0-d array", np.array(t_))):
+                r0, r1 = common.call(e.cm, arg), common.call(mt.cm, arg)
+                if r0[0] == "exc" or r1[0] == "exc":
+                    pre.append(Issue("PROPFAIL", "raises", f"cm({form} {t_}) raised: {r0[1:]} / {r1[1:]}", "cm/scalar/raises"))
+                    continue
+                c0, c1 = thr_common.cells(r0[1]), thr_common.cells(r1[1])
+                if c0 != c1 or c0 != ce[4 * j_:4 * j_ + 4]:
+                    pre.append(Issue("PROPFAIL", "relation-same", f"cm({form} {t_}): easy {c0} vs materialised {c1}; the array query "
+                                     f"gave {ce[4 * j_:4 * j_ + 4]} (k={k}, m={m}, cfg={sc},{ec})", "cm/scalar-form"))
+                    break
     # AUC: full and partial, several axis pairs
     for (lo_, hi_, xa, ya) in ((0.0, 1.0, "fpr", "tpr"), (0.1, 0.7, "fpr", "tpr"), (0.0, 0.3, "fnr", "tnr"),
                                (0.2, 1.0, "fpr", "fnr"), (0.0, 1.0, "tpr", "fpr")):
@@ -124,6 +138,23 @@ def build(inp) -> Case:
                 if abs(t0 - t1) > _ulps(t1) + 1e-12 * scale:
                     pre.append(Issue("PROPFAIL", "threshold", f"threshold_at_{metric}({r}): easy {t0} vs materialised {t1} "
                                      f"(k={k}, m={m}, cfg={sc},{ec})", f"thr/{metric}/easy"))
+    # after these queries (which read the easy / hard ratios), swap(): the swapped object must answer like a freshly built
+    # object with the classes, easy counts and both flags exchanged - also for the ratio-dependent thresholds
+    if not inp.get("big") and pos and neg:
+        flip = {"pos": "neg", "neg": "pos"}
+        sw = common.call(e.swap)
+        fresh_sw = Scores(neg, pos, nb_easy_pos=m, nb_easy_neg=k, score_class=flip[sc], equal_class=flip[ec])
+        if sw[0] == "exc":
+            pre.append(Issue("PROPFAIL", "raises", f"swap() raised {sw[1]}: {sw[2]}", "swap/raises"))
+        else:
+            for metric in gen.METRICS:
+                for r in inp["rs"][:3]:
+                    a_, b_ = common.call(getattr(sw[1], "threshold_at_" + metric), r), common.call(getattr(fresh_sw, "threshold_at_" + metric), r)
+                    if a_[0] != b_[0] or (a_[0] == "ok" and float(a_[1]) != float(b_[1])):
+                        pre.append(Issue("PROPFAIL", "threshold", f"after queries on the object, swap().threshold_at_{metric}({r}) = "
+                                         f"{a_[1]} but a freshly built swapped object gives {b_[1]} (k={k}, m={m}, cfg={sc},{ec})",
+                                         f"thr/{metric}/swap-after-history"))
+                        break
     # the same targets as ONE float64 array that the caller keeps: first the object with virtual easy samples, then the
     # materialised one (a target array rescaled in place by the first call reaches the second one changed)
     rs_arr = np.array(inp["rs"], dtype=float)
